@@ -1,112 +1,3 @@
-// Kani harnesses for joins/join_hash_map.rs (property C14): BOUNDED stand-in for the whole
-// lookup API (hashbrown + chain walk + NULL mask + paging).  Build and probe hashes are
-// concrete (so that hashbrown executes concretely inside CBMC); the NULL mask, the page size
-// and therefore every resume offset are symbolic.
+// (no registered harnesses: see /verif/attempts and DESIGN.md section 9.4)
 #[allow(unused_qualifications, unused_imports, dead_code, clippy::all)]
-mod verif_kani {
-    use super::*;
-
-    const MAXP: usize = 12;
-
-    /// reference: for every non-NULL probe row, every build row with an equal hash exactly once,
-    /// probe rows ascending, build rows in chain order (newest inserted first)
-    fn reference(build: &[u64], order_forward: bool, probe: &[u64], valid: &[bool], out: &mut [(u32, u64); MAXP]) -> usize {
-        let mut n = 0;
-        let mut p = 0;
-        while p < probe.len() {
-            if valid[p] {
-                let mut k = 0;
-                while k < build.len() {
-                    // chain order: last inserted first
-                    let b = if order_forward { build.len() - 1 - k } else { k };
-                    if build[b] == probe[p] { out[n] = (p as u32, b as u64); n += 1; }
-                    k += 1;
-                }
-            }
-            p += 1;
-        }
-        n
-    }
-
-    fn paged_lookup<M: JoinHashMapType>(map: &M, probe: &[u64], nulls: Option<&NullBuffer>, limit: usize, out: &mut [(u32, u64); MAXP]) -> usize {
-        let mut n = 0;
-        let mut offset: MapOffset = (0, None);
-        let mut a: Vec<u32> = Vec::new();
-        let mut b: Vec<u64> = Vec::new();
-        let mut rounds = 0;
-        loop {
-            let next = map.get_matched_indices_with_limit_offset(probe, nulls, limit, offset, &mut a, &mut b);
-            assert!(a.len() == b.len(), "C14.page.index_vectors_same_length");
-            assert!(a.len() <= limit, "C14.page.never_longer_than_limit");
-            let mut i = 0;
-            while i < a.len() { assert!(n < MAXP, "C14.page.no_surplus_matches"); out[n] = (a[i], b[i]); n += 1; i += 1; }
-            match next {
-                Some(o) => { offset = o; }
-                None => break,
-            }
-            rounds += 1;
-            assert!(rounds <= MAXP + 5, "C14.page.paging_terminates");
-        }
-        n
-    }
-
-    fn check(build: &[u64], forward: bool, probe: &[u64; 4], use_u64: bool) {
-        let valid: [bool; 4] = kani::any();
-        let use_mask: bool = kani::any();
-        let limit: usize = kani::any();
-        kani::assume(limit >= 1 && limit <= 6);
-        if !use_mask { kani::assume(valid[0] && valid[1] && valid[2] && valid[3]); }
-        let nulls = NullBuffer::from(valid.to_vec());
-        let nulls_opt = if use_mask { Some(&nulls) } else { None };
-        let mut got = [(0u32, 0u64); MAXP];
-        let n = if use_u64 {
-            let mut m = JoinHashMapU64::with_capacity(build.len());
-            if forward { m.update_from_iter(Box::new(build.iter().enumerate()), 0); }
-            else { m.update_from_iter(Box::new(build.iter().enumerate().rev()), 0); }
-            // membership agrees with the build side
-            let c = m.contain_hashes(probe);
-            let mut i = 0;
-            while i < 4 { assert!(c.value(i) == build.contains(&probe[i]), "C14.contain_hashes.agrees_with_build_side"); i += 1; }
-            let n = paged_lookup(&m, probe, nulls_opt, limit, &mut got);
-            std::mem::forget(m);
-            n
-        } else {
-            let mut m = JoinHashMapU32::with_capacity(build.len());
-            if forward { m.update_from_iter(Box::new(build.iter().enumerate()), 0); }
-            else { m.update_from_iter(Box::new(build.iter().enumerate().rev()), 0); }
-            let n = paged_lookup(&m, probe, nulls_opt, limit, &mut got);
-            std::mem::forget(m);
-            n
-        };
-        let mut exp = [(0u32, 0u64); MAXP];
-        let e = reference(build, forward, probe, &valid, &mut exp);
-        assert!(n == e, "C14.lookup.every_match_exactly_once_nothing_else");
-        let mut i = 0;
-        while i < e { assert!(got[i] == exp[i], "C14.lookup.pages_concatenate_to_the_unpaged_sequence"); i += 1; }
-        kani::cover!(use_mask && !valid[1] && limit == 1);
-        kani::cover!(limit == 2 && e >= 4);
-        std::mem::forget(nulls);
-    }
-
-    #[kani::proof]
-    #[kani::unwind(20)]
-    fn c14_paged_lookup_bounded_chained_forward() { check(&[10, 10, 20, 30], true, &[10, 20, 30, 20], false); }
-
-    #[kani::proof]
-    #[kani::unwind(20)]
-    fn c14_paged_lookup_bounded_chained_reversed_u64() { check(&[7, 9, 7, 9, 7], false, &[9, 7, 5, 7], true); }
-
-    #[kani::proof]
-    #[kani::unwind(20)]
-    fn c14_paged_lookup_bounded_unique_keys() { check(&[1, 2, 3], true, &[3, 1, 4, 2], false); }
-
-    #[kani::proof]
-    #[kani::unwind(8)]
-    fn c14x_build_only() {
-        let build = [10u64, 10, 20];
-        let mut m = JoinHashMapU32::with_capacity(3);
-        m.update_from_iter(Box::new(build.iter().enumerate()), 0);
-        assert!(m.next[1] == 1 && m.next[0] == 0 && m.next[2] == 0);
-        std::mem::forget(m);
-    }
-}
+mod verif_kani {}
